@@ -139,7 +139,7 @@ NOT_YET = {}
 # Added in the later rounds of the build phase (appended to the level text).
 ADDED = {
     "C01": " Exhaustive `year_tables`: Easter, ISO weeks 1/52/53 and leap days against the model on the days around them in every year 1900..9999. `far_offsets`: ranges with a year on both ends and day offsets up to i64::MAX, decided by integer arithmetic on day numbers.",
-    "C04": " `arith_edges`: day offsets computed to land within 9 days of the first / last date chrono represents, of either end of the supported range, or next to an integer / duration limit. Negative interval-size bounds; a progress check on iter_range (the very same non-empty interval twice in a row = stuck = unbounded work). The checks run with a `log` sink that formats every record (a panic while building a log message is a panic of the call). Comments composed of 1-257 multi-byte atoms.",
+    "C04": " `arith_edges`: day offsets computed to land within 9 days of the first / last date chrono represents, of either end of the supported range, or next to an integer / duration limit. Negative interval-size bounds; a progress check on iter_range (the very same non-empty interval twice in a row = stuck = unbounded work). The checks run with a `log` sink that formats every record (a panic while building a log message is a panic of the call). Comments composed of 1-257 multi-byte atoms. near_valid also replaces characters by Unicode relatives (digits of other scripts, fullwidth forms, look-alike punctuation); numbers zero-padded up to 300 characters.",
     "C06": " When the reparsed tree differs from the original one, equivalence is checked on every day of the years the expression mentions and their neighbours.",
     "C08": " From before 1900 the first opening is also computed with the reference model of C01 (independent of schedule_at); an eighth of the cases are constructed spills across a bound of the range, a quarter rare recurrences; holiday calendars reach into 1899. `zone_extremes`: zone contexts at the first / last representable instants and far outside the range, compared with the answers from an ordinary instant before 1900 / a window ending just after 9999.",
     "C09": " Exhaustive `all_transitions`: every offset transition 1900..2045 of each of the 596 zones x expressions with a state change inside the skipped / repeated stretch x 4 instants around it.",
@@ -147,13 +147,13 @@ ADDED = {
     "C11": " Days during which the zone offset changes are decided on the instants the local event times denote; exhaustive `transition_days`: every tz transition 1900..2045 of every zone owning a point of the 1-degree grid, on the local dates around it. Exhaustive `default_hours_on_transition_days`: default sun hours of a zone-only location on the days around every tz transition. `event_minutes`: event minute = UTC instant of the sunrise crate on the zone's wall clock (eras of local mean time). Exhaustive `zone_source`: from_coords against the zone finder's preferred answer on a quarter-degree grid.",
     "C12": " Strategy `border_args`: places a few metres apart on either side of a country / zone border (found by bisection on the library's own lookup), alternating within one process. DST strategy: the same instant next to a switch handed over in a zone whose offset equals the context's on the other side. A third of the constructor calls positional.",
     "C14": " 4 % of the leaves have 20-142 ranges (sizes bracketing 32 / 64) expanded from a drawn seed. Stacked leaves: up to 300 ranges open at once.",
-    "C15": " `history_extremes`: histories over the first / last years chrono represents. collect() through six iterator shapes.",
+    "C15": " `history_extremes`: histories over the first / last years chrono represents. collect() through six iterator shapes. `dense_large`: calendars of up to 263 000 dates (sizes bracketing 65 536).",
     "C17": " `single_owner`: provenance on generated expressions against the reference model (which rule's minutes survive on the day). First interval also under an interval-size bound.",
     "C18": " Values derived from one parsed value by clone().with_context (families) with a reference rebuilt from scratch; `hammer`: threads evaluating per-year computations in years colliding modulo powers of two. `lookup_histories`: coordinate lookups (zone, country, Context::from_coords) over places on both sides of zone / country borders and at junctions of countries must not depend on what was looked up before, on repetition or on the thread. `gap_histories`: zones skipping time on the same date evaluated one after the other on one thread vs alone on a fresh thread.",
-    "C19": " Results of add_minutes / add_hours must be the value new(r / 60, r % 60) builds; Display under formatter flags; sub-second and leap-second NaiveTime inputs. Exhaustive `display_pairs`: every ordered pair of values printed one after the other.",
+    "C19": " Results of add_minutes / add_hours must be the value new(r / 60, r % 60) builds; Display under formatter flags; sub-second and leap-second NaiveTime inputs. Exhaustive `display_pairs`: every ordered pair of values printed one after the other. Alternate, sign and precision flags, pretty Debug of a value and of a container.",
     "C20": " Operands of up to 3 000 elements (sizes bracketing powers of two); chains (a∪b)∪c with third operands below / above / interleaved and operands built with spare capacity. `runs`: operands made of runs of consecutive values owned by one side, the other or both (run lengths bracketing powers of two, doubles of the previous run). `deep`: interleavings of up to 70 000 elements on a large stack.",
     "C05": " 3 % of the sentences have 12-67 rules. `negative`: 77 field templates, half of the out-of-range values inside generated expressions. Sentences up to 257 rules, selector lists up to 65 elements, composed comments.",
-    "C16": " Bounds aligned on whole days from the date of the query; the context assembled in four orders (holidays / bound / locale).",
+    "C16": " Bounds aligned on whole days from the date of the query; the context assembled in four orders (holidays / bound / locale). The bounded value may be derived by normalize() / clone() from a value carrying the bound.",
     "C07": " Expressions up to 257 rules (a run of a hundred canonical rules is common), selector lists up to 65 elements.",
     "C13": " 4 % of the expressions have 12-67 rules (sizes bracketing 16 / 32 / 64). Expressions up to 257 rules.",
 }
